@@ -137,6 +137,15 @@ pub fn gen(rng: &mut Rng, n: usize, out: &mut Vec<String>) {
                         cache.pause_start_timestamp,
                         cache.last_cache_update
                     ));
+                    // directed gate probes around the cached pause window (a start in the future happens
+                    // after an extension): every probe time is >= the time the cache was written
+                    for probe in [now, now + 1, cache.pause_start_timestamp - 1, cache.pause_start_timestamp, cache.pause_start_timestamp + 1, cache.pause_start_timestamp + 1799, cache.pause_start_timestamp + 1800, cache.pause_start_timestamp + 1801] {
+                        if probe >= now {
+                            let gate = cache.is_paused_flag() && !cache.is_expired(probe);
+                            out.push(format!("panic.gate {} {} {} => {}", cache.pause_flags & 1, cache.pause_start_timestamp, probe, gate as u8));
+                            produced += 1;
+                        }
+                    }
                 }
                 _ => {
                     // group gate on the (possibly stale) cache: is_paused_flag && !is_expired
